@@ -1,12 +1,16 @@
 import RoaringModel.Lemmas.TreemapKernel32
+import RoaringModel.Lemmas.TreemapKernel
 /-!
 # C10 — RoaringTreemap is an exact set of u64 under mutation and query (property theorems)
 
 Every theorem is stated against `Spec` on strictly ascending lists of `u64` (`maxV = 2^64-1`).
 `Treemap.WF K t` = keys strictly ascending, every key `< 2^32`, every partition `K.WF` and non-empty.
-Theorems named `…_partial` depend on the hypothesis bundle `K : Kernel32` (the 32-bit refinement facts of
-`RoaringBitmap`, proved for the 32-bit core in C01/C07 and discharged at merge); what is proved *here* is the
-partition directory: `split`/`join` arithmetic at 2^32, the sorted association list, creation / replacement
+Theorems named `…_partial` are stated for an arbitrary bundle `K : Kernel32` of 32-bit refinement facts about
+`RoaringBitmap`; `Treemap.kernel32 : Kernel32` (Lemmas/TreemapKernel.lean) proves the bundle for the mirrored
+32-bit model with `WF := Bitmap.WF` from the core library (C01 mutators, C07 queries), and the theorems of the
+same name **without** the suffix (section "unconditional forms" below) are the instances at `kernel32`: they
+assume only `TWF t` (keys strictly ascending `u32`, every partition `Bitmap.WF` and non-empty).  What is
+proved *here* is the partition directory: `split`/`join` arithmetic at 2^32, the sorted association list, creation / replacement
 / removal of partitions, `elems` = concatenation of the partitions.
 -/
 namespace Roaring.C10
@@ -28,7 +32,7 @@ example : split (join 3 7) = (3, 7) := by decide
 /-! ### the abstraction -/
 
 /-- `new()` / `clear()` give the well-formed empty set. -/
-theorem C10_new_clear (K : Kernel32) (t : Treemap) :
+theorem C10_new_clear_partial (K : Kernel32) (t : Treemap) :
     WF K Treemap.new ∧ elems Treemap.new = [] ∧ WF K (Treemap.clear t) ∧ elems (Treemap.clear t) = [] :=
   ⟨WFd.nil, rfl, WFd.nil, rfl⟩
 
@@ -438,12 +442,63 @@ theorem C10_max_partial (K : Kernel32) (t : Treemap) (hw : WF K t) : Treemap.max
     rw [hel, List.getLast?_append, List.getLast?_map, hm]
     simp [Treemap.max?, List.reverse_append, hmax]
 
+/-! ### unconditional forms (the 32-bit kernel is `Treemap.kernel32`, proved from the core library) -/
+
+/-- `new()` / `clear()` give the well-formed empty set. -/
+theorem C10_new_clear (t : Treemap) :
+    TWF Treemap.new ∧ elems Treemap.new = [] ∧ TWF (Treemap.clear t) ∧ elems (Treemap.clear t) = [] :=
+  C10_new_clear_partial kernel32 t
+
+/-- The values of a well-formed treemap are strictly ascending `u64`s, and `x` is a value iff its low half is
+    in the partition of its high half. -/
+theorem C10_elems (t : Treemap) (hw : TWF t) :
+    Spec.Sorted (elems t) ∧ (∀ x ∈ elems t, x < 18446744073709551616) ∧
+    ∀ x, x ∈ elems t ↔ ∃ b, get t (x / 4294967296) = some b ∧ x % 4294967296 ∈ Bitmap.elems b :=
+  C10_elems_partial kernel32 t hw
+
+/-- `insert`: well-formedness is preserved, the set becomes `s ∪ {v}`, the result is `v ∉ s`. -/
+theorem C10_insert (t : Treemap) (hw : TWF t) (v : Nat) (hv : v < 18446744073709551616) :
+    TWF (Treemap.insert t v).1 ∧ elems (Treemap.insert t v).1 = (Spec.insert (elems t) v).1 ∧
+      (Treemap.insert t v).2 = (Spec.insert (elems t) v).2 := C10_insert_partial kernel32 t hw v hv
+
+/-- `remove`: the set becomes `s \ {v}` (an emptied partition is dropped), the result is `v ∈ s`. -/
+theorem C10_remove (t : Treemap) (hw : TWF t) (v : Nat) (hv : v < 18446744073709551616) :
+    TWF (Treemap.remove t v).1 ∧ elems (Treemap.remove t v).1 = (Spec.remove (elems t) v).1 ∧
+      (Treemap.remove t v).2 = (Spec.remove (elems t) v).2 := C10_remove_partial kernel32 t hw v hv
+
+/-- `contains` answers membership exactly. -/
+theorem C10_contains (t : Treemap) (hw : TWF t) (v : Nat) (hv : v < 18446744073709551616) :
+    Treemap.contains t v = Spec.contains (elems t) v := C10_contains_partial kernel32 t hw v hv
+
+/-- `extend` / `from_iter`: the set becomes `s ∪ vs` (fold of `insert`). -/
+theorem C10_extend (vs : List Nat) (hv : ∀ v ∈ vs, v < 18446744073709551616) (t : Treemap) (hw : TWF t) :
+    TWF (Treemap.extend t vs) ∧ elems (Treemap.extend t vs) = Spec.extend (elems t) vs :=
+  C10_extend_partial kernel32 vs hv t hw
+
+/-- `push` succeeds exactly when `v` is above the current maximum, and then appends `v`. -/
+theorem C10_push (t : Treemap) (hw : TWF t) (v : Nat) (hv : v < 18446744073709551616) :
+    TWF (Treemap.push t v).1 ∧ elems (Treemap.push t v).1 = (Spec.push (elems t) v).1 ∧
+      (Treemap.push t v).2 = (Spec.push (elems t) v).2 := C10_push_partial kernel32 t hw v hv
+
+/-- `len` is the number of values. -/
+theorem C10_len (t : Treemap) (hw : TWF t) : Treemap.len t = (elems t).length := C10_len_partial kernel32 t hw
+
+/-- `is_empty` answers emptiness. -/
+theorem C10_isEmpty (t : Treemap) (hw : TWF t) : Treemap.isEmpty t = (elems t).isEmpty :=
+  C10_isEmpty_partial kernel32 t hw
+
+/-- `min` is the first value. -/
+theorem C10_min (t : Treemap) (hw : TWF t) : Treemap.min? t = Spec.min? (elems t) := C10_min_partial kernel32 t hw
+
+/-- `max` is the last value. -/
+theorem C10_max (t : Treemap) (hw : TWF t) : Treemap.max? t = Spec.max? (elems t) := C10_max_partial kernel32 t hw
+
 /-! ### non-vacuity: a three-partition treemap built through the public API meets the invariant
 
-`Kernel32` itself is instantiated by the coordinator's 32-bit proofs (C01/C07) at merge; here the directory
-lemmas are shown to apply to a concrete value with a concrete 32-bit invariant. -/
+The directory lemmas are shown to apply to a concrete value with a concrete 32-bit invariant, and the same
+value meets `TWF`, the hypothesis of the unconditional theorems. -/
 
-def wfEx (b : Bitmap) : Prop := Sorted (Bitmap.elems b) ∧ ∀ x ∈ Bitmap.elems b, x < 4294967296
+def wfEx (b : Bitmap) : Prop := TL.Sorted (Bitmap.elems b) ∧ ∀ x ∈ Bitmap.elems b, x < 4294967296
 private theorem wfEx_elems32 : Elems32 wfEx := ⟨fun _ h => h.1, fun _ h => h.2⟩
 
 /-- `{1, 5, 2^33+3, 2^33+50, 2^34+7}`: partitions 0, 2, 4 (absent partitions in between) -/
@@ -460,6 +515,18 @@ example : WFd wfEx tEx := by
   simp only [tExLit, List.mem_cons, List.not_mem_nil, or_false] at hp
   rcases hp with rfl | rfl | rfl <;>
     exact ⟨by decide, ⟨by decide, by decide⟩, by decide⟩
+
+theorem tEx_TWF : TWF tEx := by
+  rw [tEx_eq]
+  refine ⟨by decide, ?_⟩
+  intro p hp
+  simp only [tExLit, List.mem_cons, List.not_mem_nil, or_false] at hp
+  rcases hp with rfl | rfl | rfl <;>
+    exact ⟨by decide, ⟨by decide, by
+      intro c hc
+      simp only [List.mem_cons, List.not_mem_nil, or_false] at hc
+      subst hc
+      exact ⟨by decide, ⟨by unfold Roaring.Sorted; decide, by decide⟩, by decide, by decide⟩⟩, by decide⟩
 
 example : elems tEx = [1, 5, 8589934595, 8589934642, 17179869191] := by decide
 /-- the D4 shape on the model: after `insert(2^32)`, `push(5)` is refused -/
